@@ -92,7 +92,7 @@ fn gen_tween_c(src: &mut Src, c: &Counts) -> TweenSpec {
 }
 
 /// scalar value spec; `fixed` draws the fixed value / mapping outputs
-fn gen_v(src: &mut Src, ctx: &mut Ctx, c: &Counts, opts: &GenOpts, spatial: bool, mut fixed: impl FnMut(&mut Src) -> f64) -> VSpec {
+fn gen_v(src: &mut Src, _ctx: &mut Ctx, c: &Counts, opts: &GenOpts, spatial: bool, mut fixed: impl FnMut(&mut Src) -> f64) -> VSpec {
 	let link = if !opts.links {
 		0
 	} else {
